@@ -1069,6 +1069,7 @@ class Timezone(Component):
 
     _DEFAULT_FIRST_DATE = date(1970, 1, 1)
     _DEFAULT_LAST_DATE = date(2038, 1, 1)
+    _MAX_RRULE_ONSETS = 36600  # one onset per day for a century
 
     @classmethod
     def example(cls, name: str="pacific_fiji") -> Calendar:
@@ -1104,10 +1105,28 @@ class Timezone(Component):
             rrule = dateutil.rrule.rrulestr(rrulestr, dtstart=rrstart)
             tzp.fix_rrule_until(rrule, component['RRULE'])
 
+            # Expanding the rule must terminate whatever the rule says:
+            # INTERVAL=0 never advances, and a sub-daily FREQ or a huge COUNT
+            # yields millions of onsets.
+            if rrule._interval < 1:
+                raise ValueError(f'Invalid RRULE in {component.name}: INTERVAL must be positive.')
+            if rrule._freq > dateutil.rrule.DAILY:
+                raise ValueError(
+                    f'Invalid RRULE in {component.name}: FREQ must be '
+                    'YEARLY, MONTHLY, WEEKLY or DAILY.'
+                )
+
             # constructing the timezone requires UTC transition times.
             # here we construct local times without tzinfo, the offset to UTC
             # gets subtracted in to_tz().
-            transtimes = [dt.replace (tzinfo=None) for dt in rrule]
+            transtimes = []
+            for dt in rrule:
+                if len(transtimes) >= Timezone._MAX_RRULE_ONSETS:
+                    raise ValueError(
+                        f'The RRULE of a {component.name} generates more than '
+                        f'{Timezone._MAX_RRULE_ONSETS} onsets.'
+                    )
+                transtimes.append(dt.replace(tzinfo=None))
 
         # or rdates
         elif 'RDATE' in component:
